@@ -428,16 +428,6 @@ func runR6(c *Ctx) {
 		}
 		eachInstr(fn, func(in ssa.Instruction) {
 			switch t := in.(type) {
-			case *ssa.Call:
-				// bulk reads of column storage (copy / append of the storage slice or a re-slice of it) deliver the
-				// cells in physical order; a function that works through a row index must go through that index
-				if bn := builtinName(t); (bn == "copy" || bn == "append") && len(t.Call.Args) == 2 && hasRowIndex {
-					src := t.Call.Args[1]
-					if f.isStorage(stripSliceOps(src)) || f.isStorage(src) {
-						key := fnm + "|bulk read of " + accessPath(stripSliceOps(src))
-						c.bad(key, p.instrPos(t), "column storage is copied in bulk (physical order) in a function that works through a row index: for a frame whose index is a permutation or a subset with gaps (after Sort, Filter) the cells come out in storage order, not in frame order - whatever test of the index's first and last entries precedes it")
-					}
-				}
 			case *ssa.IndexAddr:
 				base := stripSliceOps(t.X)
 				switch {
@@ -485,6 +475,15 @@ func runR6(c *Ctx) {
 					}
 				}
 			case ssa.CallInstruction:
+				// bulk reads of column storage (copy / append of the storage slice or a re-slice of it) deliver the
+				// cells in physical order; a function that works through a row index must go through that index
+				if call, isCall := in.(*ssa.Call); isCall && hasRowIndex && (builtinName(call) == "copy" || builtinName(call) == "append") && len(call.Call.Args) == 2 {
+					src := call.Call.Args[1]
+					if f.isStorage(stripSliceOps(src)) || f.isStorage(src) {
+						key := fnm + "|bulk read of " + accessPath(stripSliceOps(src))
+						c.bad(key, p.instrPos(t), "column storage is copied in bulk (physical order) in a function that works through a row index: for a frame whose index is a permutation or a subset with gaps (after Sort, Filter) the cells come out in storage order, not in frame order - whatever test of the index's first and last entries precedes it")
+					}
+				}
 				for _, callee := range res.callees(t) {
 					args := argsFor(t, callee)
 					if args == nil {
